@@ -14,6 +14,7 @@ thorough: loopback TLS servers with certificates minted by the `openssl` CLI (tr
     request byte reaches the server; each relaxing option flips exactly its own case.
 """
 import itertools
+import re
 import json
 import os
 import ssl
@@ -161,19 +162,11 @@ def judge_order(ctx, case, run, spec_pol):
             idx = int(rest.split(":")[0])
             pol, ok = rest.split(":")[1], rest.split(":")[2]
             secure = parse_url(urls[idx])[3] if idx < len(urls) else None
-            if secure is False:
-                ctx.violate("ws-never-wrapped", "ws-transport-wrapped", inp, "no wrap for ws://", e, size)
             if ok == "1":
                 wrapped_ok[idx] = pol
             exp = spec_pol.get(idx)
             if exp is not None and pol != exp:
                 ctx.violate("policy-as-documented", h2_component(exp, pol), inp, exp, pol, size)
-        elif kind == "I" and "w:" in rest:
-            idx = int(rest.split("w:")[0])
-            secure = parse_url(urls[idx])[3] if idx < len(urls) else None
-            if secure and idx not in wrapped_ok and not (idx == 0 and case.user_sock is not None):
-                ctx.violate("tls-before-data", "request-written-before-wrap", inp,
-                            "no handshake byte before a successful wrap", run.net.trace()[:300], size)
         elif kind == "P" and "w:" in rest:
             idx = int(rest.split("w:")[0])
             w = [x for x in run.net.writes if x[0] == idx and x[1] == "P"]
@@ -181,6 +174,30 @@ def judge_order(ctx, case, run, spec_pol):
                 ctx.violate("tls-before-data", "plaintext-other-than-connect", inp, "CONNECT is the only plaintext", e, size)
             if idx in wrapped_ok:
                 ctx.violate("tls-before-data", "connect-after-wrap", inp, "CONNECT precedes the wrap", e, size)
+
+
+def timeline_tokens(case, run):
+    """the real timeline in the vocabulary of the ordering Spec (`s-order-ok`)"""
+    from websocket._url import parse_url
+    urls = [case.url] + case.locations
+    out = []
+    for e in run.net.timeline:
+        k = e[0]
+        if k == "D":
+            i = int(e[1:])
+            h, p, r, sec = parse_url(urls[i]) if i < len(urls) else ("?", 0, "", False)
+            out.append(f"D:{i}:{int(bool(sec))}:{hx(h)}")
+        elif k == "A":
+            out.append(f"A:{int(e[1:])}")
+        elif k == "C":
+            out.append(f"C:{int(e[1:])}")
+        elif k == "W":
+            i, pol, ok = e[1:].split(":")
+            out.append(f"W:{i}:{pol}:{ok}")
+        elif k in "IP":
+            m = re.match(r"[IP](\d+)([wr])", e)
+            out.append(f"{k}{m.group(2)}:{m.group(1)}")
+    return ";".join(out) if out else "_"
 
 
 def h2_component(exp, pol):
@@ -204,11 +221,20 @@ def run_e2e(ctx):
                 spec_lines.append(f"s-tls-policy {sslopt_arg(case.sslopt)} {tlsenv_arg(case.env, case.isfile, case.isdir)} {hx(h)}")
                 spec_idx.append((len(runs) - 1, i))
         ctx.case(key=("e2e", case.tag, sslopt_arg(case.sslopt), json.dumps(case.env)), nontrivial=True, cls=case.tag + ":" + r.res.split("(")[0])
-    out = common.run_driver_parallel(lines + spec_lines)
-    mo, so = out[:len(lines)], out[len(lines):]
+    order_lines = [f"s-order-ok {sslopt_arg(c.sslopt)} {tlsenv_arg(c.env, c.isfile, c.isdir)} {timeline_tokens(c, r)}"
+                   for c, r in zip(cases, runs)]
+    out = common.run_driver_parallel(lines + spec_lines + order_lines)
+    mo, so, oo = out[:len(lines)], out[len(lines):len(lines) + len(spec_lines)], out[len(lines) + len(spec_lines):]
     for case, l, m, o in zip(cases, lines, mo, obs):
         if m != o:
             ctx.diverge("e2e:connect-tls", {"case": case_json(case)}, m, o)
+    for case, r, v in zip(cases, runs, oo):
+        if v != "1":
+            clause = v.split(":", 1)[1] if ":" in v else "tls-before-data"
+            cause = "request-written-before-wrap" if clause == "tls-before-data" else "ws-transport-wrapped"
+            inp = case_json(case)
+            ctx.violate(clause, cause, inp, "Spec.Tls.orderedB / wsNeverWrapped accept the timeline", r.net.trace()[:300],
+                        len(json.dumps(inp)))
     pols = {}
     for (ri, i), s in zip(spec_idx, so):
         pols.setdefault(ri, {})[i] = s
@@ -375,6 +401,12 @@ def replay(ctx, data):
             if sec:
                 pol[i] = common.run_driver([f"s-tls-policy {sslopt_arg(case.sslopt)} {tlsenv_arg(case.env, case.isfile, case.isdir)} {hx(h)}"])[0]
         judge_order(sub, case, r, pol)
+        v = common.run_driver([f"s-order-ok {sslopt_arg(case.sslopt)} {tlsenv_arg(case.env, case.isfile, case.isdir)} "
+                               f"{timeline_tokens(case, r)}"])[0]
+        if v != "1":
+            clause = v.split(":", 1)[1] if ":" in v else "tls-before-data"
+            cause = "request-written-before-wrap" if clause == "tls-before-data" else "ws-transport-wrapped"
+            sub.violate(clause, cause, inp, "ordering Spec accepts the timeline", r.net.trace()[:300])
     elif inp.get("op") == "loopback-tls":
         run_loopback(sub)
     else:
